@@ -6,6 +6,7 @@ import (
 	"context"
 	"fmt"
 	"math/rand"
+	"net/url"
 	"strconv"
 	"strings"
 	"sync"
@@ -496,6 +497,20 @@ func randomGroup(r *rand.Rand, i int) vt.Case {
 			add(map[string]any{"kind": "P", "blk": "B1", "name": cs(flat[:k]), "value": cs(flat[k+1:]), "comp": []any{"dss"}})
 			add(map[string]any{"kind": "P", "blk": "B2", "name": cs(flat[:k]), "value": cs(flat[k+1:]), "comp": []any{"dss"}})
 		}
+	}
+	// labels whose plain form name+":"+value spells what a differently rendered label (escaped,
+	// '&'-joined, ...) could hash: every cut at a ':' of such renderings of the first cuts
+	for k := 1; k <= len(flat) && k <= 4; k++ {
+		n, v := strings.Join(flat[:k], ""), strings.Join(flat[k:], "")
+		for _, c := range []string{url.QueryEscape(n) + "&" + v, url.QueryEscape(n) + "&" + url.QueryEscape(v), n + "&" + v,
+			url.QueryEscape(n) + ":" + url.QueryEscape(v), strconv.Itoa(len(n)) + ":" + n + ":" + v, strconv.Quote(n) + ":" + v} {
+			for p := 1; p < len(c); p++ {
+				if c[p] == ':' && utf8.ValidString(c[:p]) && utf8.ValidString(c[p+1:]) {
+					add(map[string]any{"kind": "P", "blk": "B1", "name": str(c[:p]), "value": str(c[p+1:]), "comp": []any{"dss"}})
+				}
+			}
+		}
+		add(map[string]any{"kind": "P", "blk": "B1", "name": cs(flat[:k]), "value": cs(flat[k:]), "comp": []any{"dss"}})
 	}
 	// expanded postings: random matcher lists, their permutations / duplicates, and one-matcher lists
 	// whose value spells the text between two matchers
